@@ -62,7 +62,7 @@ Definition K := Eval vm_compute in mismatches clash 0 cases.
 Print K.
 """
 
-DEFECTS = ["undefined-token", "double-definition", "same-value", "unknown-predef", "invalid-pattern", "no-production", "no-start", "handle-twice"]
+DEFECTS = ["undefined-token", "double-definition", "double-definition-verbatim", "same-value", "unknown-predef", "invalid-pattern", "no-production", "no-start", "handle-twice"]
 
 
 def seed_defects(rng, text, which):
@@ -75,6 +75,11 @@ def seed_defects(rng, text, which):
             decls.append('DUP = "d1";')
             decls.append("DUP = /d2/;")
             decls.append("yy = DUP;")
+        elif d == "double-definition-verbatim":
+            k = rng.choice(['"dv"', "/dv+/", "$DIGIT"])
+            decls.append("DUPV = %s;" % k)
+            decls.append("DUPV = %s;" % k)
+            decls.append("xx = DUPV;")
         elif d == "same-value":
             decls.append('SAME_A = "same";')
             decls.append('ww = SAME_A "same";')
